@@ -57,7 +57,7 @@ theorem C19_client_never_fatal (payload : Bytes) (port : Nat) :
     ∃ pairs : List (Bytes × Bytes),
       pairs = (tokens (stripB payload)).filterMap entry ∧
       onHostList payload = some (hostLines pairs) ∧
-      hostLoop (rawLines Gen.C13.READLINE_MAX (hostLines pairs).flatten) = (pairs, .eof) ∧
+      hostLoop (helperLines (hostLines pairs).flatten) = (pairs, .eof) ∧
       ∀ h ∈ pairs, validName h.1 = true ∧ validIp h.2 = true ∧ LineShape port (hostsLine port h.1 h.2) := by
   refine ⟨_, rfl, ?_, ?_, ?_⟩
   · unfold onHostList
@@ -71,8 +71,7 @@ theorem C19_client_never_fatal (payload : Bytes) (port : Nat) :
       obtain ⟨line, _, hl⟩ := List.mem_filterMap.mp hh
       obtain ⟨hv1, hv2, _⟩ := entry_valid line h hl
       exact ⟨(validName_plain _ hv1).2.2, validIp_ipBytes _ hv2⟩
-    have := rawLines_lines Gen.C13.READLINE_MAX (by decide) (hostLines _) [] (hostLines_isLine _ hok) (by simp)
-    simp only [List.append_nil, if_true] at this
+    have := helperLines_lines (hostLines _) (hostLines_isLine _ hok)
     rw [this]
     exact hostLoop_hosts _ hok
   · intro h hh
